@@ -302,9 +302,17 @@ fn impl_encode(data: &Data, type_name: &Ident, crate_path: &syn::Path) -> TokenS
 				Err(e) => return e.to_compile_error(),
 			};
 
-			// If the enum has no variants, we don't need to encode anything.
+			// If the enum has no variants to encode (none at all, or all of them are skipped),
+			// nothing is written. `encode_to` must still be provided: the default methods of
+			// `Encode` are defined in terms of each other and would otherwise never return for a
+			// value of a skipped variant.
 			if variants.is_empty() {
-				return quote!();
+				return quote! {
+					fn encode_to<__CodecOutputEdqy: #crate_path::Output + ?::core::marker::Sized>(
+						&#self_,
+						_: &mut __CodecOutputEdqy
+					) {}
+				};
 			}
 
 			let recurse = variants.iter().enumerate().map(|(i, f)| {
